@@ -146,6 +146,24 @@ func (e *Env) Run(c Concrete, tok string) Obs {
 		} else if _, err := os.Lstat(o.ServerPath); err == nil {
 			o.AtResult = []string{o.ServerPath}
 		}
+		if s.Role == "client" && s.Remover == "nobody" {
+			// A server that does NOT remove the directory (a C++ peer, another host on a
+			// shared filesystem, a hostile server): the relay answers the verdict itself
+			// and cuts the real server off before it has seen the result code, so nothing
+			// but the client touches the directory from here on.
+			v := make([]byte, 8)
+			if s.Verdict != "accept" {
+				code := int64(-1)
+				if c.Variant%2 == 1 {
+					code = 1
+				}
+				binary.BigEndian.PutUint64(v, uint64(code))
+			}
+			o.VerdictSeen, o.Verdict = true, int64(binary.BigEndian.Uint64(v))
+			stage = 3
+			ec.AnswerAndCutOff(v)
+			return nil, ErrDrop
+		}
 		var out []byte
 		if s.Role == "server" {
 			realDir, o.ObjNote = e.plant(o.ServerPath, s.Obj, c.ObjVar, tok)
